@@ -71,6 +71,9 @@ def run(prop, tier, seed, rep):
     rng = random.Random(seed * 1000003 + 19)
     hx = core.build_hx("std")
     sh = shapes(rng)
+    # where the programs come from: DekuBits.tla predicts the read/seek calls of every shape from the type definitions
+    import bits_checks
+    bits_checks.run_binding(rep, random.Random(seed * 7 + 1))
     # reference programs
     ref = hx_reader(hx, [{"bytes": list(b), "script": [], "tag": name} for name, b in sh])
     progs = []
